@@ -106,7 +106,8 @@ def c_findvwLTE(chk):
     kinds = {"one": 0, "zero": 0, "root": 0}
     for i, p in enumerate(sel(paths)):
         v = p.value
-        rs = [e for e in p.events if e.get("kind") == "root_scalar"]
+        # the root finds made by findvwLTE itself (a root find inside a callee, e.g. in the template model, is that callee's business)
+        rs = [e for e in p.events if e.get("kind") == "root_scalar" and e.get("site", "").endswith("findvwLTE")]
         final = [e for e in rs if e.get("fa") is not None and e["fa"] == diff(e["a"])]
         shock_rs = [e for e in rs if e not in final]
         # vmax as the code computes it on this path
